@@ -29,6 +29,7 @@ type SignedDataSpec struct {
 	Signer       *Key
 	SignerCert   *Cert
 	ExtraCerts   []*Cert
+	ExtraFirst   bool // additional certificates before the signer's
 	SIDForm      string // issuerSerial | ski
 	SIDIssuer    Name   // nil: the certificate's issuer name as is
 	SigningTime  *time.Time
@@ -98,9 +99,14 @@ func BuildSignedData(s SignedDataSpec, rng *core.Rng) *SignedData {
 	si := der.Seq(siParts...)
 
 	var certs []byte
-	certs = append(certs, s.SignerCert.DER...)
+	if !s.ExtraFirst {
+		certs = append(certs, s.SignerCert.DER...)
+	}
 	for _, c := range s.ExtraCerts {
 		certs = append(certs, c.DER...)
+	}
+	if s.ExtraFirst {
+		certs = append(certs, s.SignerCert.DER...)
 	}
 	encap := der.Seq(der.OID(s.EContentType...), der.Explicit(0, der.Octet(s.EContent)))
 	sdContent := [][]byte{der.IntI(3), der.Set(hashID), encap, der.TLV(0xA0, certs), der.Set(si)}
